@@ -496,8 +496,11 @@ func runLogoutStruct(c *Ctx, n int) {
 		if r.Intn(3) == 0 {
 			sp.IdentityProviderIssuer = ""
 		}
+		if r.Intn(6) == 0 {
+			sp.ServiceProviderSLOURL = "" // no single-logout endpoint configured: only a message without Destination is addressed to this SP
+		}
 		isResp := r.Intn(2) == 0
-		dest := pick(r, append([]string{sloURL, sloURL, sloURL, "", "", acsURL}, nearMisses(sloURL)...)...)
+		dest := pick(r, append([]string{sloURL, sloURL, sloURL, "", "", acsURL, acsURL}, nearMisses(sloURL)...)...)
 		ver := pick(r, "2.0", "2.0", "2.0", "", "1.1", "2.00")
 		var iss *types.Issuer
 		issKind := r.Intn(5)
@@ -508,7 +511,7 @@ func runLogoutStruct(c *Ctx, n int) {
 		default:
 			iss = &types.Issuer{Value: idpIss}
 		}
-		destOK := dest == "" || dest == sloURL
+		destOK := dest == "" || dest == sp.ServiceProviderSLOURL
 		verOK := ver == "2.0"
 		issOK := iss != nil && (sp.IdentityProviderIssuer == "" || iss.Value == sp.IdentityProviderIssuer)
 		var err error
